@@ -11,7 +11,7 @@ from fparser.two.utils import walk, Base
 from fparser.two import C99Preprocessor as CPP
 
 # (kind, text builder from a 3-char symbolic identifier `x`, expected printed form)
-KINDS = ["if", "ifdef", "ifndef", "elif", "else", "endif", "include", "define", "define_fn", "undef", "line", "marker", "error", "warning", "null", "cont", "cont3", "else_trail", "endif_trail", "error_str", "define_str", "include_bare", "include_sys"]
+KINDS = ["if", "ifdef", "ifndef", "elif", "else", "endif", "include", "define", "define_fn", "undef", "line", "marker", "error", "warning", "null", "cont", "cont3", "else_trail", "endif_trail", "error_str", "define_str", "include_bare", "include_sys", "cont_blank"]
 # kinds whose payload is free text: symbolic printable characters (quotes, ';', '/', '*' ... included)
 TEXT_KINDS = ("else_trail", "endif_trail", "error_str", "define_str")
 
@@ -53,6 +53,9 @@ def directive(kind, x):
         return "#", "#"
     if kind == "cont":
         return "#define " + x + " 1 + \\\n   2", None
+    if kind == "cont_blank":
+        # the last continuation line is empty (a trailing backslash followed by a blank line)
+        return "#define " + x + " 1 + \\\n", None
     if kind == "else_trail":
         return "#else /* " + x + " */", "#else /* " + x + " */"
     if kind == "endif_trail":
